@@ -63,7 +63,9 @@ func (e *Enc) Encode() (err error) {
 	if e.fc != nil {
 		for ord := range e.fc.Loops {
 			if ord < 1 || ord > len(e.loops) {
-				return fmt.Errorf("STALE-CONTRACT: %s has %d loops, contract names loop %d", funcName(fn), len(e.loops), ord)
+				// a loop contract without a loop (the loop was rewritten away): its clauses are void; the
+				// remaining obligations decide whether the rewrite still meets the function's contract
+				e.warn("contract of %s names loop %d but the function has %d loops: loop clauses ignored", funcName(fn), ord, len(e.loops))
 			}
 		}
 	}
@@ -558,6 +560,10 @@ func (e *Enc) processBlock(b *ssa.BasicBlock) {
 				}
 				e.oblige("inv-entry", label, inv.Tags, c.evalBool(cx), token.NoPos)
 			}
+		}
+		for k, en := range lc.Entry {
+			c := e.loopCtx(li, st, over, nil)
+			e.oblige("loop-entry", fmt.Sprintf("loop%d#%d %s", li.ord, k+1, en.Text), en.Tags, c.evalBool(en.E), token.NoPos)
 		}
 		// havoc
 		e.havocLoop(li, st)
